@@ -227,6 +227,92 @@ func checkC02(c *Ctx) {
 	// obfs4 has no tag to look a registration up by: it tries the handshake against candidates. Candidates must be
 	// restricted to obfs4 registrations, since the obfs4 keys can be derived for ANY registration's shared secret.
 	checkObfs4Candidates(c)
+
+	// ---- C02.10 the bytes a transport classifies are this connection's own: the buffer offered to WrapConnection is
+	// created (empty) by the handler call that serves the connection - not taken from a pool, a field or a package
+	// variable, where the unconsumed bytes of an earlier connection would be classified on behalf of this one
+	r.Rule("C02.10", "the receive buffer offered to the transports is allocated by the handler call itself", 1)
+	if h := c.fn("C02.10", "cmd/application", "connManager", "handleNewTCPConn"); h != nil {
+		n := 0
+		for _, ci := range callsIn(h, shortIs("WrapConnection")) {
+			cc := ci.Common()
+			args := cc.Args
+			if !cc.IsInvoke() {
+				args = argsOf(cc)
+			}
+			if len(args) < 1 {
+				continue
+			}
+			n++
+			// the buffer: a local bytes.Buffer (its address is passed), or a pointer produced by bytes.NewBuffer /
+			// new(bytes.Buffer) in this function
+			fresh := false
+			switch x := stripConv(args[0]).(type) {
+			case *ssa.Alloc:
+				fresh = true
+			case *ssa.Call:
+				n := calleeName(&x.Call)
+				fresh = n == "bytes.NewBuffer" || n == "bytes.NewBufferString"
+			case *ssa.UnOp:
+				if al, ok := x.X.(*ssa.Alloc); ok && al.Referrers() != nil {
+					// a local pointer variable: every value stored into it is fresh
+					fresh = true
+					for _, ref := range *al.Referrers() {
+						if st, ok := ref.(*ssa.Store); ok && st.Addr == ssa.Value(al) {
+							switch y := stripConv(st.Val).(type) {
+							case *ssa.Alloc:
+							case *ssa.Call:
+								if cn := calleeName(&y.Call); cn != "bytes.NewBuffer" && cn != "bytes.NewBufferString" {
+									fresh = false
+								}
+							default:
+								fresh = false
+							}
+						}
+					}
+				}
+			}
+			r.Check(fresh, "C02.10", "handleNewTCPConn: the buffer handed to WrapConnection is a local created by this call", ci.Pos(), fnName(h), firstN(pathOf(args[0]), 60),
+				"the classification buffer "+firstN(pathOf(args[0]), 50)+" is not created by the handler call (pool, field or package variable): bytes a previous connection left unconsumed are classified as the first bytes of this one, so a flight that was rejected for another phantom is accepted for whoever connects next")
+		}
+		if n == 0 {
+			r.Unk("C02.10", "handleNewTCPConn: WrapConnection", h.Pos(), fnName(h), "call not found")
+		}
+	}
+
+	// ---- C02.9 obfs4: the mark is only a hint - padding, epoch hour and MAC are verified by the library handshake, so
+	// a match may be reported only after that handshake returned without error, in this call
+	r.Rule("C02.9", "obfs4 WrapConnection reports a match only after the library handshake (WrapConn) succeeded in this call", 1)
+	if f := c.fn("C02.9", "pkg/transports/wrapping/obfs4", "Transport", "WrapConnection"); f != nil {
+		var wcs []*ssa.Call
+		for _, ci := range callsIn(f, shortIs("WrapConn")) {
+			if call, ok := ci.(*ssa.Call); ok && call.Call.IsInvoke() {
+				wcs = append(wcs, call)
+			}
+		}
+		nOK := 0
+		eachInstr(f, func(in ssa.Instruction) {
+			ret, ok := in.(*ssa.Return)
+			if !ok || len(ret.Results) != 3 || ret.Block().Comment == "recover" {
+				return
+			}
+			if cst, isC := returnedValue(ret, 2, nil).(*ssa.Const); !isC || cst.Value != nil {
+				return
+			}
+			nOK++
+			okk := false
+			for _, wc := range wcs {
+				if guarded(f, ret, errAtoms(wc, true)...) && carries(returnedValue(ret, 1, nil), wc, 0) {
+					okk = true
+				}
+			}
+			r.Check(okk, "C02.9", "obfs4 WrapConnection: success only after factory.WrapConn returned nil, with the connection it returned", ret.Pos(), fnName(f), "dominated by WrapConn err == nil; returned connection derives from its result",
+				"the match is reported without (or before) the outcome of the obfs4 handshake: the station has only compared the 16-byte mark, so a genuine flight altered in its padding or MAC is accepted, the registration is marked used and the covert is dialed")
+		})
+		if nOK == 0 || len(wcs) == 0 {
+			r.Unk("C02.9", "obfs4 WrapConnection: WrapConn / success return", f.Pos(), fnName(f), fmt.Sprintf("found %d synchronous WrapConn call(s) and %d success return(s)", len(wcs), nOK))
+		}
+	}
 	if f := c.fn("C02.4", "pkg/transports/wrapping/prefix", "Transport", "tryFindReg"); f != nil {
 		n := 0
 		eachInstr(f, func(in ssa.Instruction) {
@@ -464,4 +550,44 @@ func constIntOfPkg(p *Program, pkgPath, name string) (int64, bool) {
 		}
 	}
 	return 0, false
+}
+
+
+// carries: v is computed from src, possibly by way of a struct literal that holds it in a field.
+func carries(v, src ssa.Value, depth int) bool {
+	if v == nil || depth > 6 {
+		return false
+	}
+	if dependsOn(v, src) {
+		return true
+	}
+	switch x := v.(type) {
+	case *ssa.MakeInterface:
+		return carries(x.X, src, depth+1)
+	case *ssa.ChangeInterface:
+		return carries(x.X, src, depth+1)
+	case *ssa.UnOp:
+		return carries(x.X, src, depth+1)
+	case *ssa.Alloc:
+		if x.Referrers() == nil {
+			return false
+		}
+		for _, ref := range *x.Referrers() {
+			switch y := ref.(type) {
+			case *ssa.Store:
+				if y.Addr == ssa.Value(x) && carries(y.Val, src, depth+1) {
+					return true
+				}
+			case *ssa.FieldAddr:
+				if y.Referrers() != nil {
+					for _, r2 := range *y.Referrers() {
+						if st, ok := r2.(*ssa.Store); ok && st.Addr == ssa.Value(y) && carries(st.Val, src, depth+1) {
+							return true
+						}
+					}
+				}
+			}
+		}
+	}
+	return false
 }
